@@ -18,7 +18,8 @@ META = {
     "condition position (depth <= 3) and inside operator lambdas, targets colliding with the enclosing lambda's parameter or another "
     "target; python's own value of the comprehension on concrete data vs the reference interpreter's value of the AST produced by "
     "resolve_syntatic_sugar and by Select/Where/SelectMany in string and callable mode; no ListComp/GeneratorExp may remain; (B) "
-    "dataclass and NamedTuple constructor calls with 1-5 fields, with and without defaults, every positional/keyword split and keyword "
+    "dataclass (incl. field(init=False) and kw_only fields, whose field list differs from the signature) and NamedTuple constructor calls "
+    "with 1-5 fields, with and without defaults, every positional/keyword split and keyword "
     "order: the lowered node must be an ast.Dict whose keys/values equal inspect.signature(cls).bind(...).arguments, field access on it "
     "must evaluate to what attribute access on the real instance gives; surplus / unknown arguments, tuple targets and async "
     "comprehensions must raise ValueError; distinct by text; non-trivial = >= 2 if clauses or nesting or a name collision (A), >= 2 "
